@@ -163,7 +163,7 @@ Section Keywords.
     destruct (span numeric_start rest) as [ps r] eqn:E.
     rewrite (span_app numeric_start rest ovr ps r E (or_intror Hk)).
     destruct (map_opt (pyfloat e) ps); [|discriminate].
-    destruct (fill_params SC e elt ps l); cbn in *; [|discriminate].
+    destruct (fill_params SC true e elt ps l); cbn in *; [|discriminate].
     inversion H; subst. reflexivity.
   Qed.
 
@@ -190,13 +190,13 @@ Section Keywords.
       destruct (span numeric_start r3) as [ps r'] eqn:E3.
       rewrite (span_app numeric_start r3 ovr ps r' E3 (or_intror Hk)).
       destruct (map_opt (pyfloat e) ps); [|discriminate].
-      destruct (fill_params SC e elt ps l); cbn in *; [|discriminate].
+      destruct (fill_params SC false e elt ps l); cbn in *; [|discriminate].
       inversion H; subst. reflexivity.
     - destruct (pytrunc e first); [|discriminate]. cbn [bind] in *.
       destruct (span numeric_start r1) as [ps r'] eqn:E3.
       rewrite (span_app numeric_start r1 ovr ps r' E3 (or_intror Hk)).
       destruct (map_opt (pyfloat e) ps); [|discriminate].
-      destruct (fill_params SC e elt ps l); cbn in *; [|discriminate].
+      destruct (fill_params SC false e elt ps l); cbn in *; [|discriminate].
       inversion H; subst. reflexivity.
   Qed.
 
@@ -242,14 +242,14 @@ Section Keywords.
       cbn [bind] in H.
       destruct (span numeric_start r3) as [ps r'] eqn:E3.
       destruct (map_opt (pyfloat e) ps); [|discriminate].
-      destruct (fill_params SC e elt ps l); cbn in H; [|discriminate].
+      destruct (fill_params SC false e elt ps l); cbn in H; [|discriminate].
       inversion H; subst.
       apply span_length in E. apply span_length in E3. apply expand_ints_length in Ex.
       cbn. lia.
     - destruct (pytrunc e first); [|discriminate]. cbn [bind] in H.
       destruct (span numeric_start r1) as [ps r'] eqn:E3.
       destruct (map_opt (pyfloat e) ps); [|discriminate].
-      destruct (fill_params SC e elt ps l); cbn in H; [|discriminate].
+      destruct (fill_params SC false e elt ps l); cbn in H; [|discriminate].
       inversion H; subst. apply span_length in E3. cbn. lia.
   Qed.
 
@@ -270,7 +270,7 @@ Section Keywords.
     { unfold parse_trcl in H.
       destruct (span numeric_start rest) as [ps r] eqn:E.
       destruct (map_opt (pyfloat e) ps); [|discriminate].
-      destruct (fill_params SC e elt ps l); cbn in H; [|discriminate].
+      destruct (fill_params SC true e elt ps l); cbn in H; [|discriminate].
       inversion H; subst. eapply span_length; eassumption. }
     destruct (String.eqb elt "u").
     { destruct rest as [|v r]; [discriminate|].
@@ -534,7 +534,7 @@ Section Witness.
   Definition wenv : env (T:=T) :=
     mkEnv (fun s => if String.eqb s "0" then Some v0
                     else if String.eqb s "1" then Some v1 else None)
-          (fun _ => None) (fun _ => None) (fun _ => None) (fun v => Ok v)
+          (fun _ => None) (fun _ => None) (fun _ => None) (fun _ => None) (fun v => Ok v)
           (fun s => s) (fun s => Some s) [] (fun _ => None).
 
   Definition wtbl : table :=
@@ -572,7 +572,8 @@ Section Example.
     mkEnv (fun s => if String.eqb s "0" then Some v0
                     else if String.eqb s "1" then Some v1 else None)
           (fun s => if String.eqb s "0" then Some 0%Z else None)
-          (fun _ => None) (fun n => if (n =? 0)%Z then Some [v0] else None) (fun v => Ok v)
+          (fun _ => None) (fun s => if String.eqb s "0" then Some 0%Z else None)
+          (fun n => if (n =? 0)%Z then Some [v0] else None) (fun v => Ok v)
           (fun s => s) (fun s => Some s) [] (fun _ => None).
 
   Lemma example_hyps :
